@@ -110,6 +110,9 @@ Resolve(name) == IF Local(name) # 0 THEN Local(name) ELSE ModuleValue(name)
 RefNames == Names \cup (IF imp = "unq" THEN {"c"} ELSE IF imp = "unqalias" THEN {"d", "c"} ELSE {"c"})
 Visible  == {n \in Names \cup SpareNames \cup {"c", "d", "T", "V", "A"} : Resolve(n) # 0}
 Accessor == IF imp = "plain" THEN "m2" ELSE IF imp = "alias" THEN "q" ELSE ""
+\* module names in scope for `name.`: every import form brings the module in under its own last segment, `as q` under
+\* the alias ONLY (the generator writes qualified references just for the plain and alias forms)
+VisibleModules == IF imp = "none" THEN {} ELSE IF imp = "alias" THEN {"q"} ELSE {"m2"}
 
 \* pop frames down to and including the innermost mark
 RECURSIVE PopToMark(_)
@@ -347,7 +350,7 @@ Renames == {[d |-> d, name |-> DeclName(d), toks |-> RenameSet(d)] : d \in DeclI
 RenameComplete == Done => \A d \in DeclIds : \A i \in 1..Len(out) :
                      (out[i].tg = d /\ out[i].t = DeclName(d) /\ out[i].r # "impalias" /\ out[i].r # "modref") => i \in RenameSet(d)
 
-Program == [imp |-> imp, items |-> items, out |-> out, ren |-> Renames]
+Program == [imp |-> imp, items |-> items, out |-> out, ren |-> Renames, mods |-> VisibleModules]
 
 \* simulation mode: print the finished program and start over
 Finish == /\ Sim /\ Done
